@@ -23,7 +23,7 @@ def single_ret(P, fn):
 def run(chk, tier):
     P = Prog("default")
     chk.configs.add("default")
-    for r in (r_noread, r_copy, r_writers, r_direction, r_wallclock, r_filter, r_offset_range):
+    for r in (r_noread, r_copy, r_writers, r_direction, r_wallclock, r_filter, r_offset_range, r_opt_wrappers):
         chk.guarded(r, P)
     from props import c02
     chk.guarded(c02.r_wrappers, P, None)
@@ -364,7 +364,7 @@ YEAR_VALIDATING = {NDT + "::checked_add_months": "NaiveDate::diff_months -> from
 
 
 def r_filter(chk, P):
-    chk.rule("DOM.range_filter", "functions re-resolving a modified wall clock in the zone filter the result against MIN_UTC/MAX_UTC", floor=6)
+    chk.rule("DOM.range_filter", "functions re-resolving a modified wall clock in the zone filter the result against MIN_UTC/MAX_UTC and, where they return an Option, keep only a unique (`single`) resolution", floor=11)
     resolvers = {"offset::TimeZone::from_local_datetime", NDT + "::and_local_timezone"}
     found = []
     for n, f in P.fns.items():
@@ -388,6 +388,16 @@ def r_filter(chk, P):
         chk.expect(ok, fn, "%s re-resolves a wall-clock value in the zone without the MIN_UTC/MAX_UTC filter: %s" % (fn, why), loc=P.loc(fn))
     want = {"datetime::map_local", DTI + "with_time", DTI + "checked_add_days", DTI + "checked_sub_days", DTI + "checked_add_months", DTI + "checked_sub_months"}
     chk.expect(want <= set(found), "resolver set", "expected wall-clock re-resolving functions not found: %s" % sorted(want - set(found)))
+    # every Option-returning re-resolver keeps only a unique wall-clock time: it projects with `single`, never `earliest` / `latest`
+    # (documented: "returns None if the local time is ambiguous or in a gap")
+    for fn in sorted(want - {DTI + "with_time"}):
+        if fn not in found:
+            continue
+        cs = set()
+        for x in [fn] + P.closures_of(fn):
+            cs |= set(callees(P, x, with_closures=False))
+        proj = sorted(c.rsplit("::", 1)[-1] for c in cs if c.startswith("offset::LocalResult::<T>::") and c.rsplit("::", 1)[-1] in ("single", "earliest", "latest", "unwrap"))
+        chk.expect(proj == ["single"], fn + " projection", "%s resolves the stepped wall-clock time with %s, expected only `single` (an ambiguous or skipped time is refused)" % (fn, proj), loc=P.loc(fn))
     # the year-validating claim: diff_months builds its result through from_ymd_opt -> from_mdf, which compares the year with MIN_YEAR/MAX_YEAR
     seen = P.reachable_from(["naive::date::NaiveDate::diff_months"])
     ok = "naive::date::NaiveDate::from_mdf" in seen
@@ -515,3 +525,8 @@ def r_offset_shift_map(chk, P, tier):
         chk.ok("value")
     for cls, (a, got, w) in sorted(bad.items()):
         chk.bad(cls, "%s: (day number, second, fraction, offset) = %s folds to %s, UTC + offset gives %s" % (cls, a, got, w), loc=P.loc(NDT + "::checked_add_offset"))
+
+
+def r_opt_wrappers(chk, P, tier=None):
+    import rules
+    rules.opt_wrappers(chk, P, ("offset::fixed::",), floor=2)
